@@ -163,18 +163,22 @@ def _only_from(t, leaf):
         return True
     if t == leaf:
         return True
-    if t[0] in ("int", "const"):
+    k = t[0]
+    if k in ("int", "const"):
         return True
-    if t[0] in ("param", "upvar", "undef", "elem", "lvar", "lexit", "havoc", "fnref", "closure"):
+    if k in ("param", "upvar", "undef", "elem", "lvar", "lexit", "havoc", "fnref", "closure", "iternext", "cellref"):
         return False
-    subs = [x for x in t[1:] if isinstance(x, tuple)]
-    if t[0] == "call":
-        subs = list(t[2])
-        if not subs:
-            return False
-    if t[0] == "agg":
-        subs = list(t[3])
-    return all(_only_from(x, leaf) for x in subs)
+    if k == "call":
+        return bool(t[2]) and all(_only_from(x, leaf) for x in t[2])
+    if k == "agg":
+        return all(_only_from(x, leaf) for x in t[3])
+    if k in ("field", "index", "variant", "proj", "len", "discr"):
+        return _only_from(t[1], leaf) and (k != "index" or _only_from(t[2], leaf) or t[2][0] == "int")
+    if k in ("cast", "un"):
+        return _only_from(t[2], leaf)
+    if k == "bin":
+        return _only_from(t[2], leaf) and _only_from(t[3], leaf)
+    return False
 
 
 def lookup(ctx, report, facts, config, rule="C17.LOOKUP"):
